@@ -92,7 +92,12 @@ CLAIMED = {
         "grid argument over Z (printf renders the nearest grid point r, strtod returns the double nearest to r by the "
         "correct-rounding theorems of RoundSpec.v, x is itself a double, so y rounds back to r) - hence "
         "C01_roundtrip_fixed: both clauses with glibc-exact printf/strtod and NO stability hypothesis when scientific "
-        "notation is off. C01_hypotheses_satisfiable / C01_fixed_hypotheses_satisfiable exhibit a configuration meeting every "
+        "notation is off. Under scientific notation (%g) it is a theorem for the doubles it can hold for (FloatStableG.v, "
+        "C01_float_stable_sci): every finite double that is zero or normal, every precision up to 15, whenever the "
+        "rendering is read back finite - by a canonical form of the %g rendering, nearest-double reading of it, and the grid "
+        "argument across a decade boundary (10^15 < 2^52) - hence C01_roundtrip_sci (no stability hypothesis); "
+        "C01_sci_hypotheses_needed evaluates that each hypothesis is necessary: a denormal (F1c), a rendering above DBL_MAX "
+        "(F1b), and precision 16 on the double just above 10^23 (the bound 15 is sharp). C01_hypotheses_satisfiable / C01_fixed_hypotheses_satisfiable exhibit a configuration meeting every "
         "hypothesis; C01_refuted_keyword / _g_overflow / _g_denormal / _float_cut evaluate the four excluded classes "
         "on the model. Tie: rtrip "
         "= write, read_string into a second configuration, dump, write again, over API-built and parsed trees x option "
@@ -101,7 +106,7 @@ CLAIMED = {
    note="Known findings F1 (float %f rendering cut at 60 characters), F1b (%g rounds above DBL_MAX), F1c (denormals "
         "unstable under %g), F2 (keyword-named members), F3 (nesting beyond the parser stack) are reported as "
         "KNOWN-FINDING; a case is attributed to them only when every message of that case falls into a recorded class.",
-   technique="Coq proof (class certificates by vm_compute with a soundness proof; inductions over strings and over the tree through scanner and parser; float render-read-render stability proved for fixed notation by exact grid rounding over Z, a per-value hypothesis only under scientific notation) + round-trip correspondence",
+   technique="Coq proof (class certificates by vm_compute with a soundness proof; inductions over strings and over the tree through scanner and parser; float render-read-render stability proved by exact grid rounding over Z: fixed notation for every finite double and precision, scientific notation for normal doubles at precision <= 15 with finite read-back - the complement being the recorded findings F1b/F1c) + round-trip correspondence",
    ref="5 (C01)"),
  "C17": dict(
    text="Coq theorems (Properties_C17.v, closed under the global context) over Cpp.v, the model of lib/libconfigcpp.c++ "
@@ -273,17 +278,27 @@ CLAIMED = {
    technique="Coq proof (structural decomposition of the serializer, induction over the nested tree) + byte-exact correspondence",
    ref="5 (C19)"),
  "C20": dict(
-   text="PARTIAL. Proved (Properties_C20.v, closed under the global context): the refill logic of the scanner - carry "
-        "DFA state, position and best candidate across refills, decide only at a jam or at end of input (Chunked.v) - "
-        "selects, for every way of cutting the input into chunks, exactly what the matcher selects on the concatenation "
-        "(induction over the chunk list, generic in the tables); config_read_file on a regular file is config_read on its "
-        "bytes with the file name recorded; in the model the string and stream entry points are the same function. The "
-        "pointer arithmetic of yy_get_next_buffer (memmove, buffer growth, YY_INPUT through fread) is not modelled: on every "
-        "run each token kind is slid across the 8/16/24/32 KiB positions and the text is read through "
-        "config_read_string, fmemopen, cookie streams delivering 1..8193-byte pieces, and config_read_file; outcomes are "
+   text="Proved (Properties_C20.v, closed under the global context). (a) The abstract refill logic (Chunked.v): carrying DFA "
+        "state, position and best candidate across refills and deciding only at a jam or at end of input selects, for every "
+        "cutting of the input, what the matcher selects on the concatenation. (b) A faithful model of the flex skeleton's "
+        "buffer machinery as compiled in lib/scanner.c (FlexBuf.v / FlexBufFacts.v): the buffer of yy_buf_size bytes plus two "
+        "sentinels, yy_n_chars, buffer status NEW/NORMAL/EOF_PENDING, the move of the partial lexeme to the front, "
+        "num_to_read = size - number_to_move - 1, the doubling loop, the cap at YY_READ_BUF_SIZE, a stream that may deliver "
+        "any count between 1 and the requested size, EOB_ACT_END_OF_FILE/LAST_MATCH/CONTINUE_SCAN, yy_get_previous_state, NUL "
+        "bytes inside the data, yy_scan_bytes for strings. C20_refill_in_bounds: every byte a refill writes lies inside the "
+        "allocation and the growth loop ends; C20_match: for every table set, start condition, byte string of any length "
+        "(lexemes longer than the buffer included) and every way the stream cuts its data, one call of the buffered matcher "
+        "returns exactly flex_match on the remaining input; C20_inputs_agree: with the compiled tables and the buffer sizes "
+        "of gen/Consts.v, a stream, another stream over the same bytes and the string give the same token sequence; "
+        "C20_chunked_is_buffered links (a) and (b). config_read_file on a regular file is config_read on its bytes with the "
+        "file name recorded. Corners the proof exposed: YY_READ_BUF_SIZE >= 1, a refilled buffer of size >= 1. Not "
+        "modelled: interactive buffers, the ferror/EINTR path, the int-overflow branch of the growth (2^30 bytes), buffer "
+        "switching for includes (Lexer.v gives each file its own buffer); the skeleton model is a hand transcription of "
+        "generated code, tied on every run: each token kind is slid across the 8/16/24/32 KiB positions and the text read "
+        "through config_read_string, fmemopen, cookie streams delivering 1..8193-byte pieces, and config_read_file; outcomes "
         "compared pairwise and with the model, including an @include followed by more than one read block.",
-   note="NUL-free inputs, as the property states (config_read_string stops at a NUL by construction).",
-   technique="Coq proof (chunk-composition lemma for the DFA run, induction over chunks) + sliding-offset correspondence (partial)",
+   note="NUL-free inputs at the API level, as the property states (config_read_string stops at a NUL by construction); the buffer theorems hold for any bytes.",
+   technique="Coq proof (invariant of the buffer state and simulation of the refilling matcher by flex_match over all streams and buffer sizes; chunk-composition lemma) + sliding-offset correspondence",
    ref="5 (C20)"),
  "C11": dict(
    text="Coq theorems (Properties_C11.v, closed under the global context) about the scanner/include-machine model "
